@@ -425,6 +425,19 @@ func runSeq(c *harness.C, mode string, seq []string) {
 		}
 		e := &env{c: c, mode: mode, w: w, lg: lg, rs: scen.NewResults(), seq: seq}
 		e.bad = func(clause, sig, detail string) {
+			if overlapSlice != "" {
+				// C04's slice: deliveries of two sessions that are in flight at the same nodes at
+				// once are all handed over (each session completes with the right result)
+				op := ""
+				if e.opIdx < len(seq) {
+					op = seq[e.opIdx]
+				}
+				if !strings.Contains(op, "||") || !(strings.HasPrefix(sig, "c12-fails") || strings.HasPrefix(sig, "c12-wrong-signature")) {
+					return
+				}
+				clause = "totality with two sessions in flight (" + clause + ")"
+				sig = strings.ToLower(overlapSlice) + "-overlapping-sessions-" + sig
+			}
 			sig = sig + ":" + mode
 			if reported[sig] {
 				return
@@ -449,11 +462,27 @@ func runSeq(c *harness.C, mode string, seq []string) {
 	}
 }
 
+var overlapSlice = func() string {
+	if os.Getenv("VERIF_FAMILY") == "overlap" {
+		return os.Getenv("VERIF_PROP")
+	}
+	return ""
+}()
+
 func gen(c *harness.C) []harness.Case {
+	if overlapSlice != "" {
+		c.Property = overlapSlice
+	}
 	c.Note("rule", "all operation sequences up to the depth bound over the alphabet "+strings.Join(ops, " | ")+", executed on one persistent world of real Schemes (backend S, n=3, signers {1,2}) with the default schedule inside each operation; after every operation the handler tables (reflection) must be empty, every cooperative operation must succeed whatever preceded it; distinct_nontrivial = distinct (mode, history)")
 	depth := 4
 	if c.Thorough() {
 		depth = 5
+	}
+	if overlapSlice != "" {
+		depth = 2
+		if c.Thorough() {
+			depth = 3
+		}
 	}
 	if os.Getenv("VERIF_FAMILY") == "threads" {
 		return threadCases(c)
